@@ -10,6 +10,8 @@ include!(concat!(env!("OUT_DIR"), "/mods.rs"));
 
 mod sha256;
 mod model;
+mod gen;
+mod decode;
 mod vsys;
 mod project;
 mod run;
